@@ -62,7 +62,14 @@ def generated_key(f: FieldSpec, *, trim=True, style=None):
     return name
 
 
-def layout(fields, *, map=None, as_list=False, trim=True, style=None, skip=(), only=None, extra_in="skip"):  # noqa: A002
+def layout(fields, *, map=None, as_list=False, trim=True, style=None, skip=(), only=None, extra_in="skip",  # noqa: A002
+           map_func=None):
+    if map_func is not None:
+        # documented: a map element may be a function; `...` in its result stands for the key that would be generated
+        map = dict(map or {})  # noqa: A001
+        for k, v in map_func.items():
+            if any(f.name == k for f in fields):
+                map[k] = v
     paths = {}
     for idx, f in enumerate(fields):
         if f.name in skip:
